@@ -86,6 +86,10 @@ type Op struct {
 	A  string `json:"a,omitempty"`
 	B  string `json:"b,omitempty"`
 	Q  *Query `json:"q,omitempty"`
+	// Then, if set, is a second mutation ("update" or "delete") made inside the same write transaction.
+	Then string `json:"then,omitempty"`
+	A2   string `json:"a2,omitempty"`
+	B2   string `json:"b2,omitempty"`
 }
 
 // Cfg is the machine configuration.
@@ -259,14 +263,35 @@ func newMachine(cfg Cfg) (*machine, error) {
 func (m *machine) mutate(op Op) error {
 	tx := m.st.Write(op.ID)
 	defer tx.Close()
+	var err error
 	switch op.K {
 	case "create":
-		return tx.Create(Rec{A: op.A, B: op.B})
+		err = tx.Create(Rec{A: op.A, B: op.B})
 	case "update":
-		return tx.Update(Rec{A: op.A, B: op.B})
+		err = tx.Update(Rec{A: op.A, B: op.B})
 	default:
-		return tx.Delete()
+		err = tx.Delete()
 	}
+	if err != nil || op.Then == "" {
+		return err
+	}
+	// a second mutation inside the same write transaction
+	if op.Then == "update" {
+		return tx.Update(Rec{A: op.A2, B: op.B2})
+	}
+	return tx.Delete()
+}
+
+// split turns an op with a follow-up into the sequence of single mutations it performs.
+func split(op Op) []Op {
+	if op.Then == "" || op.K == "delete" {
+		o := op
+		o.Then = ""
+		return []Op{o}
+	}
+	first := op
+	first.Then = ""
+	return []Op{first, {K: op.Then, ID: op.ID, A: op.A2, B: op.B2}}
 }
 
 func (m *machine) query(q Query) ([]string, error) {
@@ -324,49 +349,57 @@ func runSequential(c Case) (r seqResult) {
 	for i, op := range c.Ops {
 		switch op.K {
 		case "create", "update", "delete":
-			prev, exists := model[op.ID]
+			if op.K == "delete" {
+				op.Then = ""
+			}
+			_, exists0 := model[op.ID]
+			if (op.K == "create") == exists0 {
+				op.Then = "" // the first mutation fails: nothing follows
+			}
 			err := m.mutate(op)
-			okWanted := (op.K == "create") != exists
-			if (err == nil) != okWanted {
-				r.c13 = fmt.Sprintf("op %d %v: error %v, model exists=%v (store contract, see C11)", i, op, err, exists)
+			if (err == nil) != ((op.K == "create") != exists0) {
+				r.c13 = fmt.Sprintf("op %d %v: error %v, model exists=%v (store contract, see C11)", i, op, err, exists0)
 				return
 			}
 			if err != nil {
 				continue
 			}
-			snapPrev := copyModel(model)
-			var before, after *Rec
-			if exists {
-				p := prev
-				before = &p
-			}
-			if op.K == "delete" {
-				delete(model, op.ID)
-				deletes++
-			} else {
-				n := Rec{A: op.A, B: op.B}
-				model[op.ID] = n
-				after = &n
-			}
-			changed := false
-			for _, idx := range c.Cfg.Indexes {
-				bk, ak := keyOf(idx, before), keyOf(idx, after)
-				if !(bk == nil && ak == nil) && !(bk != nil && ak != nil && bytes.Equal(bk, ak)) {
-					changed = true
+			for _, op := range split(op) {
+				prev, exists := model[op.ID]
+				snapPrev := copyModel(model)
+				var before, after *Rec
+				if exists {
+					p := prev
+					before = &p
 				}
-			}
-			if changed {
-				if op.K == "update" {
-					keyChanging++
+				if op.K == "delete" {
+					delete(model, op.ID)
+					deletes++
+				} else {
+					n := Rec{A: op.A, B: op.B}
+					model[op.ID] = n
+					after = &n
 				}
-				e := expectQC{id: op.ID, snapPrev: snapPrev, snapNext: copyModel(model)}
-				if before != nil {
-					e.before = recJSON(*before)
+				changed := false
+				for _, idx := range c.Cfg.Indexes {
+					bk, ak := keyOf(idx, before), keyOf(idx, after)
+					if !(bk == nil && ak == nil) && !(bk != nil && ak != nil && bytes.Equal(bk, ak)) {
+						changed = true
+					}
 				}
-				if after != nil {
-					e.after = recJSON(*after)
+				if changed {
+					if op.K == "update" {
+						keyChanging++
+					}
+					e := expectQC{id: op.ID, snapPrev: snapPrev, snapNext: copyModel(model)}
+					if before != nil {
+						e.before = recJSON(*before)
+					}
+					if after != nil {
+						e.after = recJSON(*after)
+					}
+					expected = append(expected, e)
 				}
-				expected = append(expected, e)
 			}
 		case "flush":
 			m.qs.Flush()
